@@ -54,6 +54,11 @@ func (e *env) setCPU(v int64) {
 // install wires the CPU signal of this run into go-zero.
 func (e *env) install() {
 	logx.Disable()
+	// The alert reporter behind stat.Report (called on every drop) rate-limits through a
+	// package-level LessExecutor whose "last time" survives a run: in a process that has
+	// already seen a drop the next runs would take a different path through Report.  The unit
+	// tests of go-zero run with the reporter switched off; do the same (public API).
+	stat.SetReporter(nil)
 	stat.VerifSetCpuUsage(0)
 	load.VerifSetOverloadChecker(func(thr int64) bool {
 		over := e.cpu >= thr
